@@ -35,6 +35,10 @@ def ACOS(
     https://support.office.com/en-us/article/
         acos-function-cb73173f-d089-4582-afa1-76e5524b5d5b
     """
+    if not (-1 <= number <= 1):
+        raise xlerrors.NumExcelError(
+            f'number {number} must be between -1 and 1')
+
     return np.arccos(float(number))
 
 
@@ -166,7 +170,10 @@ def COSH(
     https://support.office.com/en-us/article/
         cosh-function-e460d426-c471-43e8-9540-a57ff3b70555
     """
-    return np.cosh(float(number))
+    try:
+        return math.cosh(float(number))
+    except OverflowError:
+        raise xlerrors.NumExcelError('result is too large')
 
 
 @xl.register()
@@ -212,7 +219,10 @@ def EXP(
     https://support.office.com/en-us/article/
         exp-function-c578f034-2c45-4c37-bc8c-329660a63abe
     """
-    return np.exp(float(number))
+    try:
+        return math.exp(float(number))
+    except OverflowError:
+        raise xlerrors.NumExcelError('result is too large')
 
 
 @xl.register()
@@ -227,6 +237,9 @@ def FACT(
     """
     if number < 0:
         raise xlerrors.NumExcelError('Negative values are not allowed')
+
+    if number >= 171:
+        raise xlerrors.NumExcelError('result is too large')
 
     return math.factorial(int(number))
 
@@ -243,6 +256,9 @@ def FACTDOUBLE(
     """
     if number < 0:
         raise xlerrors.NumExcelError('Negative values are not allowed')
+
+    if number >= 301:
+        raise xlerrors.NumExcelError('result is too large')
 
     return factorial2(int(number), exact=True)
 
@@ -303,6 +319,9 @@ def LN(
     https://support.office.com/en-us/article/
         ln-function-81fe1ed7-dac9-4acd-ba1d-07a142c6118f
     """
+    if number <= 0:
+        raise xlerrors.NumExcelError(f'number {number} must be positive')
+
     return math.log(number)
 
 
@@ -317,6 +336,13 @@ def LOG(
     https://support.office.com/en-us/article/
         log-function-4e82f196-1ca9-4747-8fb0-6c4a3abb3280
     """
+    if number <= 0 or base <= 0:
+        raise xlerrors.NumExcelError(
+            f'number {number} and base {base} must be positive')
+
+    if base == 1:
+        raise xlerrors.DivZeroExcelError()
+
     return math.log(float(number), float(base))
 
 
@@ -330,6 +356,9 @@ def LOG10(
     https://support.office.com/en-us/article/
         log10-function-c75b881b-49dd-44fb-b6f4-37e3486a0211
     """
+    if number <= 0:
+        raise xlerrors.NumExcelError(f'number {number} must be positive')
+
     return np.log10(float(number))
 
 
@@ -344,6 +373,9 @@ def MOD(
     https://support.office.com/en-us/article/
         mod-function-9b6cd169-b6ee-406a-a97b-edf2a9dc24f3
     """
+    if divisor == 0:
+        raise xlerrors.DivZeroExcelError()
+
     return number % divisor
 
 
@@ -404,9 +436,11 @@ def POWER(
             f'negative number {number} raised to fractional power {power}')
 
     try:
-        return np.power(number, power)
+        result = np.power(number, power)
+        float(result)
     except OverflowError:
         raise xlerrors.NumExcelError('result is too large')
+    return result
 
 
 @xl.register()
